@@ -34,7 +34,8 @@ RULE = ('tables from tables.rand_spec (1..5 x 1..5, layout recipes, all id alpha
         '(an unrelated string, a stored id of maximal length with extra characters appended, a proper prefix, another case, an id of the other axis), one '
         'whole read per file, and a stream of tables with 9..12 ids on one axis (kept indices >= 8, two-digit indices) with small subsets; '
         'JSON documents in which only some ids carry metadata (json readers only: the HDF5 writer refuses them); '
-        'tables whose row/column strings trigger the known findings F34/F35 reach the JSON slicer only as tagged witness cases; '
+        '3 in 10 tables get ] [ } { quotes, backslashes and separators spliced into ids and metadata strings; '
+        'a metadata key named "columns" (known finding F35) reaches the JSON slicer only in tagged witness cases; '
         'non-trivial = axis with >= 2 ids and a proper subset, or an unknown-id request; distinct by case hash')
 TRUSTED = ['hand-written models coq/Model/Subset.v (array level) and coq/Model/Slicer.v (text level) tied to biom/table.py, '
            'biom/parse.py and biom/cli/table_subsetter.py by this correspondence run',
@@ -382,6 +383,34 @@ def partial_md_cases(rng, tier):
             yield dict(c, stream='partial-metadata')
 
 
+SPICE = [']', '[', '}', '{', '"', '\\', '],[', '"]', '\\"', "{'", '\t', ', ', ':"']
+
+
+def spice(rng, spec):
+    """brackets, braces, quotes, backslashes and separators inside ids and metadata strings (F34, repaired):
+    every id / metadata value gets one of them with probability 1/2, at a random position"""
+    def mix(sx):
+        if rng.random() < 0.5:
+            k = rng.randint(0, len(sx))
+            return sx[:k] + rng.choice(SPICE) + sx[k:]
+        return sx
+
+    def uniq(ids):
+        out = []
+        for i in ids:
+            j = mix(i)
+            out.append(j if j not in out and j not in ids else i)
+        return out
+
+    def md(m):
+        if m is None:
+            return None
+        return [None if x is None else {k: (mix(v) if isinstance(v, str) else
+                                            [mix(e) for e in v] if isinstance(v, list) else v)
+                                        for k, v in x.items()} for x in m]
+    return dict(spec, oids=uniq(spec['oids']), sids=uniq(spec['sids']), omd=md(spec.get('omd')), smd=md(spec.get('smd')))
+
+
 def gen(rng, tier):
     for c in wide_cases(rng, tier):
         yield c
@@ -396,16 +425,11 @@ def gen(rng, tier):
             art({'spec': spec, 'gen': gen_by})
         except Exception:        # the library cannot write this table (other properties' business)
             continue
-        if risky_scanner(spec) or risky_mdkey(spec):
-            # known findings F34 / F35: such tables go through every reader except the JSON slicer in the
-            # main stream; the slicer sees them as separately tagged witness cases (2 requests per axis)
+        if rng.random() < 0.3:
+            spec = spice(rng, spec)
+        if risky_mdkey(spec):      # known finding F35: never produced by rand_spec, kept for safety
             for c in cases_for(rng, spec, gen_by, tier, readers=('h5', 'h5nomd', 'cmd_h5', 'json')):
                 yield c
-            for axis in ('observation', 'sample'):
-                ids = spec['oids'] if axis == 'observation' else spec['sids']
-                for sub in ([ids[0]], list(ids)):
-                    yield {'spec': spec, 'gen': gen_by, 'kind': 'cmd_json', 'axis': axis, 'ids': sub,
-                           'ser': rng.choice(SERS), 'stream': 'known-finding-witness'}
             continue
         for c in cases_for(rng, spec, gen_by, tier):
             yield c
@@ -502,6 +526,8 @@ def classify(c):
             tags.append('subset-all-zero')
     if all(v == 0 for r in c['spec']['mat'] for v in r):
         tags.append('table-all-zero')
+    if any(any(ch in sx for ch in '[]{}"\\') for sx in _risky_strings(c['spec'])):
+        tags.append('strings:brackets-quotes-backslashes-in-rows-or-columns')
     return tags
 
 
@@ -564,12 +590,6 @@ def _known_ids_only(c):
     return all(i in ids for i in c['ids'])
 
 
-def risky_scanner(spec):
-    """F34: a string inside the rows / columns arrays that the bracket/quote scanner of direct_parse_key
-    cannot cross: it contains ] [ } { or an odd number of double quotes"""
-    return any(any(ch in s for ch in '[]{}') or s.count('"') % 2 == 1 for s in _risky_strings(spec))
-
-
 def risky_mdkey(spec):
     """F35: observation metadata with a key named "columns" (found before the real top-level key)"""
     found = []
@@ -585,14 +605,10 @@ def risky_mdkey(spec):
     return 'columns' in found
 
 
-def sig_scanner(c, io, mo, fails):
-    return c['kind'] == 'cmd_json' and bool(fails) and _known_ids_only(c) and risky_scanner(c['spec'])
-
-
 def sig_md_key(c, io, mo, fails):
     return c['kind'] == 'cmd_json' and bool(fails) and _known_ids_only(c) and risky_mdkey(c['spec'])
 
 
 # keys = ids in known_findings.jsonl.  core.run_check accepts a match only when the model reproduces
 # the implementation's observable, so a slicer failure of any other origin stays a violation.
-SIGNATURES = {'F34': sig_scanner, 'F35': sig_md_key}
+SIGNATURES = {'F35': sig_md_key}
